@@ -76,7 +76,12 @@ def run_retry(case):
                     continue
                 t0_, sess_ = issue[i]
                 if sess_ is None or sess_ != lnk.session:
-                    continue
+                    # a request issued while some thread was held up (possibly inside the handling of a link error) belongs to the
+                    # session whose link first carried it - the same rule the verdict below uses
+                    in_stall = any(ts_ - EPS <= t0_ <= ts_ + d_ + EPS for ts_, d_, _n in s.stall_log)
+                    carried = [l_.session for l_ in env.world.links if any((p_, c_, d_) == (rq['port'], rq['channel'], bytes(rq['data'])) for (_t, p_, c_, d_, _cl) in l_.tx)]
+                    if not (in_stall and carried and carried[0] == lnk.session):
+                        continue
                 if (pk.port, pk.channel) == (rq['port'], rq['channel']) and data[:len(rq['expected'])] == bytes(rq['expected']):
                     if best is None or len(rq['expected']) > len(reqs[best]['expected']):
                         best = i
@@ -151,7 +156,15 @@ def run_retry(case):
                         pk.set_header(r['port'], r['channel'])
                         pk.data = bytes(r['data'])
                         issue[arg] = (s.now, len(sessions) - 1 if cf.link is not None else None)
-                        cf.send_packet(pk, expected_reply=tuple(r['expected']), timeout=r['timeout'])
+                        try:
+                            cf.send_packet(pk, expected_reply=tuple(r['expected']), timeout=r['timeout'])
+                        except OSError as e:
+                            if 'injected' not in str(e):
+                                raise
+                            # the transport failed in this caller's face (it happened to make the first send on the broken link):
+                            # the application sees the exception, the request was never made
+                            issue[arg] = (s.now, None)
+                            out.feat('send-raised-in-a-user-thread')
                     if r.get('thread'):
                         # issued from another user thread: may interleave with a close/reopen at the same instant
                         s.spawn(do_send, 'sender%d' % arg)
@@ -183,13 +196,15 @@ def run_retry(case):
                         sessions[-1][1] = t_err
                 elif kind == 'reopen' and not link_open and not any(e.get('reopen_in_cb') for e in case['events']):
                     net.fault = None
-                    if arg.get('send_raises'):
+                    # (not combined with a request made by another thread at the same instant: that one could be the first to send)
+                    raises = bool(arg.get('send_raises')) and not any(r_.get('thread') for r_ in reqs)
+                    if raises:
                         # the very first transmission of the new link fails in the caller's face: the attempt is over at once
                         net.fault = {'k': 0, 'reporter': 'raise', 'session': len(env.world.links)}
                         env.world.fault_fired = False
                     cf.open_link('sim://1')
-                    sessions.append([s.now, s.now if arg.get('send_raises') else None])
-                    if arg.get('send_raises'):
+                    sessions.append([s.now, s.now if raises else None])
+                    if raises:
                         net.fault = None
                         if cf.link is not None:
                             out.fail('retry:link-kept-after-failed-open', 'open_link failed (transport error on the first send) but Crazyflie.link is still set')
